@@ -67,15 +67,17 @@ type Targets struct {
 }
 
 type tr struct {
-	fset   *token.FileSet
-	info   *types.Info
-	pkg    *types.Package
-	known  map[string]bool // translated function names (for calls)
-	notes  []string
-	errs   []string
-	curFn  string
-	segIn  map[types.Object]bool
-	indent int
+	fset    *token.FileSet
+	info    *types.Info
+	pkg     *types.Package
+	known   map[string]bool // translated function names (for calls)
+	notes   []string
+	errs    []string
+	curFn   string
+	segIn   map[types.Object]bool
+	helpers []string
+	swCount int
+	indent  int
 }
 
 func (t *tr) fail(n ast.Node, f string, a ...interface{}) string {
@@ -757,7 +759,60 @@ func (t *tr) switchStmt(x *ast.SwitchStmt) string {
 		return ""
 	}
 	tp := tuple(as)
-	out := fmt.Sprintf("%slet sw_tag := %s\n%slet sw_run := false\n%slet sw_done := false\n", p, t.expr(x.Tag), p, p)
+	// the switch becomes a helper definition `<fn>_sw<k> tag <variables read or assigned in the arms>`, so that
+	// theorems about it can be stated per tag value
+	type pv struct {
+		name string
+		pos  token.Pos
+		y    ty
+	}
+	var pvs []pv
+	seen := map[types.Object]bool{}
+	for _, c := range x.Body.List {
+		ast.Inspect(c, func(n ast.Node) bool {
+			id, ok := n.(*ast.Ident)
+			if !ok {
+				return true
+			}
+			obj, ok := t.info.ObjectOf(id).(*types.Var)
+			if !ok || obj.Parent() == t.pkg.Scope() || obj.IsField() || seen[obj] {
+				return true
+			}
+			if obj.Pos() >= x.Pos() && obj.Pos() < x.End() {
+				return true // declared inside the switch
+			}
+			seen[obj] = true
+			y, ok := t.tyOf(obj.Type())
+			if !ok {
+				t.fail(id, "switch variable type %s", obj.Type())
+			}
+			pvs = append(pvs, pv{obj.Name(), obj.Pos(), y})
+			return true
+		})
+	}
+	sort.Slice(pvs, func(i, j int) bool { return pvs[i].pos < pvs[j].pos })
+	tagTy, _ := t.typeOfExpr(x.Tag)
+	t.swCount++
+	hname := leanName(strings.ReplaceAll(strings.ReplaceAll(t.curFn, "/", "_"), ".", "_")) + fmt.Sprintf("_sw%d", t.swCount)
+	var decls, args, rtys []string
+	for _, v := range pvs {
+		decls = append(decls, fmt.Sprintf("(%s : %s)", leanName(v.name), v.y.lean()))
+		args = append(args, leanName(v.name))
+	}
+	for _, a := range as {
+		for _, v := range pvs {
+			if v.name == a {
+				rtys = append(rtys, v.y.lean())
+			}
+		}
+	}
+	pos := t.fset.Position(x.Pos())
+	h := fmt.Sprintf("/-- %s:%d the `switch %s` of `%s` (arms in source order; `sw_run` carries `fallthrough`) -/\n", filepath.Base(pos.Filename), pos.Line, src(t.fset, x.Tag), t.curFn)
+	h += fmt.Sprintf("def %s (sw_tag : %s) %s : %s :=\n", hname, tagTy.lean(), strings.Join(decls, " "), strings.Join(rtys, " × "))
+	saved := t.indent
+	t.indent = 1
+	hp := t.pad()
+	h += fmt.Sprintf("%slet sw_run := false\n%slet sw_done := false\n", hp, hp)
 	for i, c := range x.Body.List {
 		cc := c.(*ast.CaseClause)
 		body := cc.Body
@@ -771,6 +826,7 @@ func (t *tr) switchStmt(x *ast.SwitchStmt) string {
 		var conds []string
 		if cc.List == nil {
 			if i != len(x.Body.List)-1 {
+				t.indent = saved
 				return p + t.fail(x, "default clause not last") + "\n"
 			}
 			conds = append(conds, "true")
@@ -778,19 +834,20 @@ func (t *tr) switchStmt(x *ast.SwitchStmt) string {
 		for _, e := range cc.List {
 			conds = append(conds, "(sw_tag == "+t.expr(e)+")")
 		}
-		out += fmt.Sprintf("%slet sw_run := sw_run || (!sw_done && (%s))\n", p, strings.Join(conds, " || "))
-		out += p + "let " + tp + " := if sw_run then\n"
+		h += fmt.Sprintf("%slet sw_run := sw_run || (!sw_done && (%s))\n", hp, strings.Join(conds, " || "))
+		h += hp + "let " + tp + " := if sw_run then\n"
 		t.indent += 2
-		out += t.stmts(body, func() string { return tp }, nil)
+		h += t.stmts(body, func() string { return tp }, nil)
 		t.indent -= 2
-		out += p + "  else " + tp + "\n"
-		if ft {
-			// control continues into the next arm
-		} else {
-			out += p + "let sw_done := sw_done || sw_run\n" + p + "let sw_run := false\n"
+		h += hp + "  else " + tp + "\n"
+		if !ft {
+			h += hp + "let sw_done := sw_done || sw_run\n" + hp + "let sw_run := false\n"
 		}
 	}
-	return out
+	h += hp + tp + "\n"
+	t.indent = saved
+	t.helpers = append(t.helpers, h)
+	return fmt.Sprintf("%slet %s := %s %s %s\n", p, tp, hname, t.expr(x.Tag), strings.Join(args, " "))
 }
 
 // ---- functions, segments, constants
@@ -1133,7 +1190,12 @@ func main() {
 				allErrs = append(allErrs, fmt.Sprintf("%s: function %s not found", m.Lean, f))
 				continue
 			}
-			body.WriteString(t.function(fd) + "\n")
+			fs := t.function(fd)
+			for _, h := range t.helpers {
+				body.WriteString(h + "\n")
+			}
+			t.helpers = nil
+			body.WriteString(fs + "\n")
 		}
 		for _, sg := range m.Segments {
 			fd := decls[sg.Func]
@@ -1141,7 +1203,12 @@ func main() {
 				allErrs = append(allErrs, fmt.Sprintf("%s: function %s not found", m.Lean, sg.Func))
 				continue
 			}
-			body.WriteString(t.segment(fd, sg) + "\n")
+			ss := t.segment(fd, sg)
+			for _, h := range t.helpers {
+				body.WriteString(h + "\n")
+			}
+			t.helpers = nil
+			body.WriteString(ss + "\n")
 		}
 		allErrs = append(allErrs, t.errs...)
 		var hdr strings.Builder
